@@ -174,6 +174,23 @@ def r2_kill(report, repo):
                for x in ast.walk(c.args[0])) for c in cs if c.args)
   report.check(ok, rule, a.qualname, 'own-ident', a.node,
                'the asynchronous exception is aimed at self.ident only')
+  ga = lib.cfg(a)
+  for n in ga.nodes:
+    if n.kind == 'stmt' and isinstance(n.ast, ast.Raise) and n.ast.exc is not \
+        None and last_attr(n.ast.exc) == 'ValueError':
+      posts = [x for x, c_ in lib.nodes_with_call(ga)
+               if last_attr(c_) == 'PyThreadState_SetAsyncExc']
+      okv = ga.dominated_by_edge(
+          n, lambda s_, l, d: s_.kind == 'test' and l == 'T' and
+          call_name(s_.ast) == 'self.is_alive' and any(
+              ga.dominated_by(s_, lambda y, _p=p_: y is _p) for p_ in posts))
+      report.check(
+          okv, rule, a.qualname, 'dead-thread-is-benign', n.ast,
+          '"thread id invalid" is an error only if the thread is still alive',
+          'async_raise raises ValueError when the interpreter found no such '
+          'thread even if the thread has just exited: a kill racing with the '
+          'end of the body blows up in join_or_die (ERROR instead of TIMEOUT, '
+          'teardown skipped) although such a kill must have no effect')
 
 
 def r3_join_or_die(report, repo):
